@@ -21,6 +21,7 @@ import (
 	"io"
 	"net"
 	"os"
+	"sync"
 	"syscall"
 	"testing"
 	"time"
@@ -180,6 +181,7 @@ type c06Case struct {
 	Drain     string     `json:"drain,omitempty"` // read | prefix | writeto
 	P         int        `json:"p,omitempty"`
 	TimeoutMs int        `json:"timeout_ms,omitempty"`
+	Sched     string     `json:"sched,omitempty"` // async: late | drain
 	Init      string     `json:"init,omitempty"`
 	Dgrams    []c06Dgram `json:"dgrams,omitempty"`
 }
@@ -498,6 +500,190 @@ func c06RunQuic(cs c06Case) (res c06Result) {
 	return
 }
 
+// ---------------------------------------------------------------- asynchronous fallback (no read deadlines)
+
+// c06AsyncConn is a connection whose SetReadDeadline fails: NewConnSniffer then uses
+// readStreamOnceAsync.  Reads are serialised like on a socket (one read lock); a "pause" event
+// blocks the Read that reaches it until the harness releases it (the client is silent).
+type c06AsyncConn struct {
+	mu       sync.Mutex
+	events   [][]byte
+	status   []string
+	idx      int
+	release  chan struct{}
+	lateDone chan struct{}
+	paused   chan struct{}
+	once     sync.Once
+	ponce    sync.Once
+}
+
+func (c *c06AsyncConn) Read(p []byte) (int, error) {
+	c.mu.Lock()
+	defer c.mu.Unlock()
+	passed := false
+	defer func() {
+		if passed {
+			c.once.Do(func() { close(c.lateDone) })
+		}
+	}()
+	for {
+		if c.idx >= len(c.events) {
+			return 0, io.EOF
+		}
+		st, d := c.status[c.idx], c.events[c.idx]
+		switch st {
+		case "pause":
+			c.idx++
+			c.ponce.Do(func() { close(c.paused) })
+			<-c.release
+			passed = true
+			continue
+		case "eof":
+			c.idx++
+			return 0, io.EOF
+		default:
+			n := copy(p, d)
+			if n < len(d) {
+				c.events[c.idx] = d[n:]
+			} else {
+				c.idx++
+			}
+			return n, nil
+		}
+	}
+}
+func (c *c06AsyncConn) Write(p []byte) (int, error)        { return len(p), nil }
+func (c *c06AsyncConn) Close() error                       { return nil }
+func (c *c06AsyncConn) LocalAddr() net.Addr                { return &net.TCPAddr{IP: net.IPv4(127, 0, 0, 1), Port: 1} }
+func (c *c06AsyncConn) RemoteAddr() net.Addr               { return &net.TCPAddr{IP: net.IPv4(127, 0, 0, 1), Port: 2} }
+func (c *c06AsyncConn) SetDeadline(t time.Time) error      { return os.ErrNoDeadline }
+func (c *c06AsyncConn) SetReadDeadline(t time.Time) error  { return os.ErrNoDeadline }
+func (c *c06AsyncConn) SetWriteDeadline(t time.Time) error { return os.ErrNoDeadline }
+
+func c06RunAsync(cs c06Case) (res c06Result) {
+	conn := &c06AsyncConn{release: make(chan struct{}), lateDone: make(chan struct{}), paused: make(chan struct{})}
+	hasPause := false
+	for _, e := range cs.Script {
+		conn.events = append(conn.events, c06Hex(e.D))
+		conn.status = append(conn.status, e.St)
+		if e.St == "pause" {
+			hasPause = true
+		}
+	}
+	to := time.Duration(cs.TimeoutMs) * time.Millisecond
+	if to <= 0 {
+		to = 15 * time.Millisecond
+	}
+	sn := NewConnSniffer(conn, to)
+	t0 := time.Now()
+	func() {
+		defer func() {
+			if r := recover(); r != nil {
+				res.Panic = fmt.Sprint(r)
+				res.Class = "panic"
+			}
+		}()
+		d, err := sn.SniffTcp()
+		res.Class = c06Class(d, err)
+		res.Name = hex.EncodeToString([]byte(d))
+		if err != nil {
+			res.Err = err.Error()
+		}
+	}()
+	res.ElapsedMs = float64(time.Since(t0).Microseconds()) / 1000
+	res.DataErr = sn.Sniffer.dataError != nil
+	outstanding := false
+	if hasPause {
+		select {
+		case <-conn.paused:
+			select {
+			case <-conn.lateDone:
+			default:
+				outstanding = true
+			}
+		default:
+		}
+	}
+	res.ArmedLeft = outstanding // reused: a read of the sniffer is still outstanding
+	if res.Panic != "" {
+		close(conn.release)
+		res.RelaySt = "panic"
+		return
+	}
+	select {
+	case <-sn.Sniffer.dataReady:
+	case <-time.After(time.Second):
+		close(conn.release)
+		res.RelaySt = "blocked"
+		return
+	}
+	p := cs.P
+	if p <= 0 {
+		p = 32 << 10
+	}
+	var out bytes.Buffer
+	drain := func() {
+		defer func() {
+			if r := recover(); r != nil {
+				res.RelayPanic = fmt.Sprint(r)
+				res.RelaySt = "panic"
+			}
+		}()
+		switch cs.Drain {
+		case "prefix":
+			out.Write(sn.TakeRelayPrefix())
+			_, err := sn.CopyRelayRemainder(&out, make([]byte, p))
+			res.RelaySt = c06ErrStatus(err)
+		case "writeto":
+			_, err := sn.WriteTo(&out)
+			res.RelaySt = c06ErrStatus(err)
+		default:
+			buf := make([]byte, p)
+			for i := 0; i < 1<<20; i++ {
+				n, err := sn.Read(buf)
+				out.Write(buf[:n])
+				if err != nil {
+					res.RelaySt = c06ErrStatus(err)
+					break
+				}
+			}
+		}
+	}
+	if !outstanding {
+		if hasPause {
+			close(conn.release)
+		}
+		drain()
+	} else if cs.Sched == "late" {
+		// the client's next bytes arrive before the relay touches the sniffer
+		close(conn.release)
+		<-conn.lateDone
+		time.Sleep(3 * time.Millisecond)
+		drain()
+	} else {
+		// the relay takes the buffer first; then the client goes on
+		done := make(chan struct{})
+		go func() { drain(); close(done) }()
+		time.Sleep(5 * time.Millisecond)
+		close(conn.release)
+		select {
+		case <-done:
+		case <-time.After(2 * time.Second):
+			res.RelaySt = "blocked"
+		}
+		select {
+		case <-conn.lateDone:
+		case <-time.After(time.Second):
+		}
+		time.Sleep(2 * time.Millisecond)
+	}
+	res.Relay = hex.EncodeToString(out.Bytes())
+	if sn.Sniffer.buf != nil {
+		res.Buf = hex.EncodeToString(sn.Sniffer.buf.Bytes()) // bytes left in the sniffer buffer after the relay finished
+	}
+	return
+}
+
 func TestVerifC06(t *testing.T) {
 	verifEachLine(t, func(line []byte) any {
 		var cs c06Case
@@ -506,6 +692,9 @@ func TestVerifC06(t *testing.T) {
 		}
 		if cs.Kind == "quic" {
 			return c06RunQuic(cs)
+		}
+		if cs.Kind == "async" {
+			return c06RunAsync(cs)
 		}
 		return c06RunTcp(cs)
 	})
